@@ -42,7 +42,7 @@ TsRuntime(j) == LET l == KRow(j).link IN
 
 Cats == {"host_wait", "kernel_wait", "other"}
 Init == /\ ks \in Inputs /\ e0 \in 0..T /\ thr \in Thrs
-        /\ StrictSerial(R)
+        /\ StrictSerial(R) = TRUE
         /\ todo = 1..K
         /\ prevEnd = [s \in {7, 9} |-> -1]           \* -1: no previous kernel on the stream (NaN)
         /\ acc = [s \in {7, 9} |-> [c \in Cats |-> 0]]
